@@ -1,7 +1,7 @@
 """C19 - transport faults are contained: no foreign results, and the proxy recovers.
 
-E2: every sequence of <=D peer behaviours over the property's 12-letter fault
-alphabet, followed by three healthy exchanges, is played by a scripted peer
+E2: every sequence of <=D peer behaviours over the property's fault alphabet (12 letters, plus the
+truncation and reset faults striking in the middle of a large body), followed by three healthy exchanges, is played by a scripted peer
 against one real ServerProxy (real HTTPConnection / xmlrpc Transport /
 jsonrpclib transports over an in-memory socket), for TCP and Unix transports
 and for calls, notifications and batches.  A kernel leg replays shorter
@@ -351,6 +351,14 @@ class KernelPeer(object):
                 send(env.http_resp(200, "OK", good + b"x" * 16)[:-8])
                 self.close_conn()
                 return
+            elif b == "TRUNC_BIG":
+                send(env.http_resp(200, "OK", b'"' + env.BIG_PAD + b'"')[:-1200])
+                self.close_conn()
+                return
+            elif b == "RESET_MID":
+                send(env.http_resp(200, "OK", b'"' + env.BIG_PAD + b'"')[:-1200])
+                self.close_conn(reset=True)
+                return
             elif b == "EMPTY200":
                 send(env.http_resp(200, "OK", b""))
             elif b == "GARBAGE200":
@@ -419,6 +427,8 @@ def kernel_cases(tier):
     for transport in ("tcp", "unix"):
         for d in range(1, D + 1):
             for seq in itertools.product(env.ALPHABET, repeat=d):
+                if transport == "unix" and "RESET_MID" in seq:
+                    continue  # an AF_UNIX peer cannot be made to deliver a reset in the middle of a body deterministically
                 for kind in (("call", "batch") if d == 2 else ("call", "notify", "batch")):
                     if tier == "quick" and d == 2 and kind == "batch":
                         continue
@@ -469,7 +479,7 @@ META = {
     "technique": "explicit enumeration of fault sequences (histories) against the real client stack over a deterministic in-memory socket layer with a "
     "scripted peer; per-call token oracle; conformance leg over kernel TCP/Unix sockets",
     "rule": "every sequence of 1..3 (thorough 1..4) behaviours over {OK_KA, OK_CLOSE, REFUSE, CLOSE0, RESET, E4XX_LEN, E5XX_LEN, E5XX_NOLEN, BODILESS, TRUNC, "
-    "EMPTY200, GARBAGE200}, consumed one per connection attempt or per request read, followed by three healthy exchanges, x {Transport over TCP, UnixTransport} "
+    "EMPTY200, GARBAGE200, TRUNC_BIG, RESET_MID}, consumed one per connection attempt or per request read, followed by three healthy exchanges, x {Transport over TCP, UnixTransport} "
     "x {call, notification, batch of call+notification+call}; states = distinct (cached connection state, unread bytes, script position) after a call, "
     "transitions = client calls; kernel leg: sequences of length <=2 over real loopback TCP and Unix sockets, outcome classes compared with the model; "
     "non-trivial = every sequence (each contains at least one scripted behaviour)",
